@@ -101,13 +101,17 @@ RunVerdict(c, rn) ==
              ELSE << "", "" >>
     ELSE << "malformed: unknown kind", "" >>
 
-\* tolerance monitors: d in units of 1e-13; two-sided |d| <= tol, one-sided d <= tol
-RECURSIVE FirstMon(_, _)
-FirstMon(c, k) ==
+\* tolerance monitors: d in units of 1e-13; two-sided |d| <= tol, one-sided d <= tol.  A monitor flagged `soft` states
+\* more than the property claims (e.g. the exact dissipation balance where the statement only says "never increases"):
+\* its failure alone is spec drift ("model:"), not a violation.
+IsSoft(m) == IF "soft" \in DOMAIN m THEN m.soft ELSE FALSE
+RECURSIVE FirstMon(_, _, _)
+FirstMon(c, k, wantSoft) ==
     IF k > Len(c.mons) THEN ""
     ELSE LET m == c.mons[k]
              ok == IF m.two THEN (m.d <= c.tol /\ 0 - m.d <= c.tol) ELSE m.d <= c.tol
-         IN  IF ok THEN FirstMon(c, k + 1) ELSE "tol: " \o m.name
+         IN  IF ok \/ IsSoft(m) # wantSoft THEN FirstMon(c, k + 1, wantSoft)
+             ELSE (IF wantSoft THEN "model: " ELSE "tol: ") \o m.name
 
 C == Cases[ci]
 TInit == /\ ci = 1 /\ l = 1 /\ bad = "" /\ soft = ""
@@ -123,9 +127,10 @@ RunStep ==
 
 NextCase ==
     /\ l > Len(C.runs)
-    /\ LET mv == FirstMon(C, 1)
+    /\ LET mv == FirstMon(C, 1, FALSE)
+           sv == FirstMon(C, 1, TRUE)
            hard == IF bad # "" THEN bad ELSE mv
-           v == IF hard # "" THEN hard ELSE IF soft # "" THEN soft ELSE "ok"
+           v == IF hard # "" THEN hard ELSE IF soft # "" THEN soft ELSE IF sv # "" THEN sv ELSE "ok"
        IN  TLCSet(1, Append(TLCGet(1), [ id |-> C.id, v |-> v ]))
     /\ ci' = ci + 1 /\ l' = 1 /\ bad' = "" /\ soft' = ""
     /\ g' = IF ci + 1 <= Len(Cases) THEN CompileRec(Cases[ci + 1]) ELSE [ n |-> 0 ]
